@@ -1234,10 +1234,16 @@ def repo_tests_leg(prop, out):
         with open(cp, "w") as f:
             json.dump(rec, f)
     I, view = calltrace.repo_test_instance()
+    digest = calltrace.repo_test_digest()
+    mine = [c for c in rec["calls"] if c.get("net") == digest]
+    if not digest or not mine:
+        raise ToolError("no recorded call of the repository's tests ran on solution/resources/test_instance.json "
+                        "(fingerprint %r, %d calls recorded)" % (digest, len(rec["calls"])))
     invs = [x for x in (WALK_INVS.get(prop) or CALL_INVS) if x != "P_C13_input"]
-    n = validate_calls(prop, invs, "repo_tests", view, rec["calls"], out, "repo_tests")
+    n = validate_calls(prop, invs, "repo_tests", view, mine, out, "repo_tests")
     out.coverage["repo_tests_with_hooks"] = {"tests_passed": rec["passed"], "tests_failed": rec["failed"],
-                                             "modification_calls_validated": n}
+                                             "modification_calls_validated": n,
+                                             "calls_on_other_instances_not_judged": len(rec["calls"]) - len(mine)}
     out.traces += rec["passed"]
 
 
